@@ -477,7 +477,7 @@ int main(int argc, char **argv) {
                 if (WIFSIGNALED(st)) { kind = VF_SIGNAL; code = WTERMSIG(st); } else if (WEXITSTATUS(st) == 99) { kind = VF_ASAN; code = 99; }
                 else if (WEXITSTATUS(st) == 97) { kind = VF_TIMEOUT; code = 97; } else if (WEXITSTATUS(st) == 98) { kind = VF_FAULT; code = 98; } else { kind = VF_EXIT; code = WEXITSTATUS(st); }
                 death_fn(bad, kind, code, (const char *)vf_sh->note, NULL);
-                if (G->cfg_no > G->resume_cfg && G->resumes < 2) { G->resume_cfg = G->cfg_no; G->resumes++; next = (unsigned long long)bad; }   /* same matrix again, behind the configuration that died (at most twice) */
+                if (G->cfg_no > G->resume_cfg && G->resumes < (FIRST_CLASS_PASS ? 2 : 0)) {      /* resuming behind a death: in the first (maxsuper,rowblk) class only; a matrix that kills the library there is run once per further class */ G->resume_cfg = G->cfg_no; G->resumes++; next = (unsigned long long)bad; }   /* same matrix again, behind the configuration that died (at most twice) */
                 else { G->resume_cfg = 0; G->resumes = 0; next = (unsigned long long)bad + 1; }
             }
           }
